@@ -1154,13 +1154,13 @@ pub fn run(tier: Tier, seed: u64) -> i32 {
     let rep = Report::new("C11", tier, seed, Level::ModelChecking);
     rep.set_rule("every schedule (sequence of task choices at the repository's vp_sched! points) of each harness body with at most B preemptions, run on the real MemoryCache/DiskCache; states = distinct site traces, transitions = scheduling decisions, traces = executions; an execution is non-trivial when it contains ≥1 preemption");
     rep.assume("sequential consistency at hook granularity (Relaxed counters are not explored under weak memory)");
-    rep.assume("the std RwLocks of cascette-cache (DiskCache index, multi-layer promotion tracker) and the parking_lot RwLocks of DynamicContainer (index, archive, allocator, LRU) are scheduler-aware: acquire and release are scheduling points, a blocked acquire disables the task until a release, all-blocked is reported as deadlock; hooks never sit inside the guard scopes of locks that are not wrapped (DashMap shards, the other parking_lot locks of cascette-client-storage), where a lock-holding segment is atomic as in reality");
+    rep.assume("the std RwLocks of cascette-cache (DiskCache index, multi-layer promotion tracker) and the parking_lot RwLocks of DynamicContainer (index, archive, allocator, LRU) and of ArchiveManager (write positions) are scheduler-aware: acquire and release are scheduling points, a blocked acquire disables the task until a release, all-blocked is reported as deadlock; hooks never sit inside the guard scopes of locks that are not wrapped (DashMap shards — MemoryCache's map is wrapped so that its point operations are scheduling points taken before the shard lock —, the other parking_lot locks of cascette-client-storage), where a lock-holding segment is atomic as in reality");
     rep.assume("map specification: expired entries answer None/false; removing an expired entry may return either boolean; a failed op takes no effect and may fail only when a concurrent op of another task touches the same key");
     rep.assume("books: size() and stats() are read right after the last task returned and again after one get per key; before the gets they may exceed the retrievable contents only by entries that were put with ttl 0 (uncollected expired entries), after them they must be equal; under-reporting before the gets is not judged here");
     rep.assume("pre-state 'new instance on a filled directory' (DiskCache bodies marked so): the set-up runs sequentially on a first instance with the same configuration, which is dropped before the tasks start on a second one; its signatures name the overlapping operations (keys renamed) instead of the preempted sites, because every schedule into the same lock window preempts at a different mix of rwlock points");
     rep.assume("a concurrent stats() must return without failing; its hit/miss figures are not judged; it can only be preempted inside AtomicCacheMetrics::fast_snapshot if the repository carries the scheduling point metrics.snapshot.hit (without it the stats bodies explore the coarser interleavings only)");
     let bound = tier.pick(2, 3);
-    let budget = Duration::from_secs(tier.pick(40, 900));
+    let budget = Duration::from_secs(tier.pick(40, 1500));
     let start = std::time::Instant::now();
     let bs = bodies(tier);
     let mut total_exec = 0u64;
@@ -1197,7 +1197,10 @@ pub fn run(tier: Tier, seed: u64) -> i32 {
             rep.cap_hit(&format!("wall-clock budget hit before DynamicContainer body {bi} of {}", dbs.len()));
             break;
         };
-        let st = explore(b, bound, Some(left), &rep, &sig_for("dyn"));
+        // three DynamicContainer tasks pass ≈ 40 scheduling points (every lock of the container and
+        // of the archive manager is one): they are explored with at most 2 preemptions
+        let b_bound = if b.n_tasks() >= 3 { bound.min(2) } else { bound };
+        let st = explore(b, b_bound, Some(left), &rep, &sig_for("dyn"));
         total_exec += st.executions;
         total_points += st.executions * st.max_points as u64;
         nontrivial += st.by_preemptions.iter().skip(1).sum::<u64>();
@@ -1210,7 +1213,7 @@ pub fn run(tier: Tier, seed: u64) -> i32 {
     }
     rep.add_transitions(total_points);
     rep.add_nontrivial_count(nontrivial);
-    rep.extra("bounds", serde_json::json!({"preemption_bound": bound, "bodies": bs.len() + dbs.len(), "tasks_per_body": "2-3", "ops_per_task": "1-2"}));
+    rep.extra("bounds", serde_json::json!({"preemption_bound": bound, "preemption_bound_for_three_task_DynamicContainer_bodies": bound.min(2), "bodies": bs.len() + dbs.len(), "tasks_per_body": "2-3", "ops_per_task": "1-2"}));
     rep.extra("per_body", serde_json::Value::Array(per_body));
     if total_exec > 0 && rep.outcomes() < 5 {
         rep.machinery_error("vacuous exploration: fewer than 5 distinct outcomes");
